@@ -74,9 +74,6 @@ impl Monitor for C14 {
             if n > 0 && pre.reward_total_balance > 0 {
                 self.index_updates += n as u64;
                 out.count("c14.index_updates_with_holders");
-                if post.prev_reward_balance != post.reward_bank {
-                    out.violation(P, "update_records_balance", format!("after an index update the recorded balance {} differs from the actual {}", post.prev_reward_balance, post.reward_bank));
-                }
             } else if n > 0 {
                 out.count("c14.index_updates_without_holders");
                 if pre.reward_bank > pre.prev_reward_balance {
@@ -114,9 +111,14 @@ impl Monitor for C14 {
                 if pre.reward_bank - post.reward_bank != sent {
                     out.violation(P, "claim_pays_whole_units", format!("reward contract balance fell by {} but {} was sent to the recipient", pre.reward_bank - post.reward_bank, sent));
                 }
-                let ph = post.holders.get(user);
-                if ph.map(|x| (x.pending, x.index)) != Some((frac, pre.global_index)) {
-                    out.violation(P, "claim_keeps_fraction", format!("{}: fraction {} e-18 should be kept, holder after claim {:?}", user, frac, ph));
+                // what stays accrued after the claim is exactly the fraction
+                let left: Uint256 = post
+                    .holders
+                    .get(user)
+                    .map(|h| Uint256::from(post.global_index.saturating_sub(h.index)) * Uint256::from(h.balance) + Uint256::from(h.pending))
+                    .unwrap_or_default();
+                if left != Uint256::from(frac) {
+                    out.violation(P, "claim_keeps_fraction", format!("{}: fraction {} e-18 should be kept, accrued after the claim is {} e-18", user, frac, left));
                 }
                 if pre.prev_reward_balance - post.prev_reward_balance != sent {
                     out.violation(P, "claim_reduces_recorded", format!("recorded balance {} -> {} after paying {}", pre.prev_reward_balance, post.prev_reward_balance, sent));
